@@ -14,6 +14,8 @@ def gen_inputs(tier, rnd):
     for _ in range(n):
         spec = V.gen_spec(rnd)
         table = V.gen_table(rnd, spec)
+        if rnd.random() < 0.3:
+            spec, table = V.builtin_variant(rnd, spec, table)     # one column of another built-in type (numbers, dates, patterns)
         fault = rnd.random() < 0.35
         # a quarter of the cases with a validation limit: the modes still differ in presentation only, and every row is produced
         limit = rnd.randint(0, len(table) + 1) if rnd.random() < 0.25 else None
